@@ -405,6 +405,13 @@ def parseMessage(rawMessage, oobFDs):
             pass
 
     if m.signature:
+        # a SIGNATURE is at most 255 bytes long; a peer may however put a
+        # string of any length into the field, and splitting a signature
+        # into complete types is quadratic in its length
+        if len(m.signature) > 255:
+            raise error.MarshallingError(
+                'Signature exceeds the maximum length of 255')
+
         nbytes, m.body = marshal.unmarshal(
             m.signature,
             m.rawBody,
